@@ -320,7 +320,17 @@ class LiteralH(Node):
             return True   # hostile __eq__: do not judge
 
     def gen_in(self, rng, cx=CX0, depth=0, hashable=False):
-        return rng.choice(self.values)
+        v = rng.choice(self.values)
+        # half of the time an equal value that is another object (parsed input, computed numbers, sliced strings):
+        # a literal is matched by equality, not by identity
+        if rng.random() < .5:
+            if type(v) is str and v:
+                return ''.join(list(v))
+            if type(v) is bytes and v:
+                return bytes(bytearray(v))
+            if type(v) is int and not -5 <= v <= 256:
+                return int(str(v))
+        return v
 
     def gen_bad(self, rng, cx=CX0, depth=0, hashable=False):
         near = [2, 99, -1, 'zz', b'zz', '', None, False, True, 1.0, 2.0, env()['Col'].GREEN,
@@ -952,16 +962,24 @@ class MapH(Node):
 class TupleFixedH(Node):
     kind = 'tuple:fixed'
 
-    def __init__(self, children, typing_spelling=False):
+    def __init__(self, children, typing_spelling=False, unpack=None):
         super().__init__()
         self.children = tuple(children)
         self.typing_spelling = typing_spelling
+        # (start, stop): that run of children is spelled as an unpacked fixed tuple (PEP 646:
+        # tuple[Unpack[tuple[A, B]], C] means tuple[A, B, C])
+        self.unpack = unpack if (unpack and not typing_spelling and 0 <= unpack[0] < unpack[1] <= len(self.children)) else None
 
     @property
     def src(self):
         name = 'Tuple' if self.typing_spelling else 'tuple'
         if not self.children:
             return f'{name}[()]'
+        if self.unpack:
+            a, b = self.unpack
+            parts = ([c.src for c in self.children[:a]] + ['Unpack[tuple[' + ', '.join(c.src for c in self.children[a:b]) + ']]']
+                     + [c.src for c in self.children[b:]])
+            return f'{name}[' + ', '.join(parts) + ']'
         return f'{name}[' + ', '.join(c.src for c in self.children) + ']'
 
     def full(self, x, cx=CX0):
@@ -1284,7 +1302,7 @@ _LEAF_CLASSES = ['int', 'str', 'bool', 'float', 'complex', 'bytes', 'A', 'B', 'C
                  'CtxMgrInt', 'RealBox']
 _HASHABLE_LEAF = ['int', 'str', 'bool', 'float', 'bytes', 'A', 'B', 'Col', 'IntSub', 'tuple', 'frozenset', 'Hashable']
 _LITERAL_SRCS = ['0', '1', '2', '-1', 'True', 'False', "'a'", "'bc'", "''", "b'x'", 'None',
-                 'Col.RED', 'Col.GREEN']
+                 'Col.RED', 'Col.GREEN', "'read write'", '1099511627776', "b'xyz'"]
 
 
 def gen_hint(rng, depth=3, hashable=False, allow_any=True, top=True):
@@ -1316,7 +1334,11 @@ def gen_hint(rng, depth=3, hashable=False, allow_any=True, top=True):
                        for i in range(n)])
     if r < .32:
         n = rng.choice((0, 1, 2, 2, 3, 4))
-        return TupleFixedH([sub(hashable=hashable) for _ in range(n)], rng.random() < .25)
+        unpack = None
+        if n >= 2 and rng.random() < .2:
+            a = rng.choice((0, 0, rng.randrange(n)))
+            unpack = (a, min(n, a + rng.choice((1, 2))))
+        return TupleFixedH([sub(hashable=hashable) for _ in range(n)], rng.random() < .25, unpack)
     if r < .50:
         if hashable:
             return SeqH(rng.choice(('tuplevar', 'Tuplevar')), sub(hashable=True))
@@ -1396,7 +1418,7 @@ def rebuild(node, f):
     if isinstance(node, UnionH):
         return UnionH([rb(m) for m in node.members])
     if isinstance(node, TupleFixedH):
-        return TupleFixedH([rb(c) for c in node.children], node.typing_spelling)
+        return TupleFixedH([rb(c) for c in node.children], node.typing_spelling, node.unpack)
     if isinstance(node, SeqH):
         return SeqH(node.origin, rb(node.child))
     if isinstance(node, ReitH):
